@@ -581,6 +581,7 @@ class PendingAssign(PendingNode[Assign | AnnAssign]):
         _slice = target.slice
         if isinstance(_slice, Slice):
             _slice = utils.convert_slice(_slice)
+        _slice = expr_transf(self.nsp, _slice)
 
         return Call(
             func=Attribute(
